@@ -741,7 +741,24 @@ def r4_5_state_writers(rep, facts):
         rep.undecidable("R4.5", "state-writers", "no writer of the record state found outside the dispatch site")
 
 
+def r4_6_fresh_yield(rep, facts):
+    """R4.6: what a call of request::Parser::parse yields toward the client is what *this* call appended: the reply buffer is cleared on
+    every path before the state machine is driven and before anything is yielded (instance of C03 R3.2, re-evaluated) -- a return that
+    skips the clear hands the previous call's replies out a second time."""
+    import check
+    from . import c03
+    sr = check.Report("tmp", "quick")
+    c03.run(sr, facts)
+    n = 0
+    for i in sr.instances:
+        if i["rule"] == "R3.2" and i["instance"].startswith("parse/clear-then-drive"):
+            n += 1
+            (rep.ok if i["status"] == "ok" else rep.violation)("R4.6", i["instance"], i["detail"], i["loc"])
+    rep.floor("R4.6", "yield paths of request::Parser::parse", n, 1)
+
+
 def run(rep, facts):
+    rep.rule("R4.6", "every call of request::Parser::parse clears the reply buffer before it drives the state machine or yields: the bytes a call reports are the bytes it appended, and no reply is handed out twice (R3.2)")
     rep.rule("R4.5", "outside the header dispatch the stream parser's record state is only demoted Stream -> Skip (a pending GetValues body cannot be discarded)")
     rep.rule("R4.1", "the decision tables of the three header-dispatch sites equal the FastCGI specification oracle row by row: who is answered, with which record / status / id, exactly one append per owed row and none otherwise, next state, consumption of the header, sibling agreement")
     rep.rule("R4.2", "GetValuesResult only when the whole remaining body is present, once, for a non-empty body; the name-value decoder is bounded by the record's payload")
@@ -753,6 +770,7 @@ def run(rep, facts):
     check.guard(rep, "R4.3", r4_3_append_only, facts)
     check.guard(rep, "R4.4", r4_4_counts, facts)
     check.guard(rep, "R4.5", r4_5_state_writers, facts)
+    check.guard(rep, "R4.6", r4_6_fresh_yield, facts)
 
 
 def main(rep, tier):
